@@ -1040,6 +1040,23 @@ def _is_exception(node: ast.AST) -> bool:
     return False
 
 
+def _contains_loop_exit(node: ast.AST, exit_types: Tuple[type, ...]) -> bool:
+    """Check if node contains a break/continue that belongs to the loop around node.
+
+    Statements that belong to a nested loop, or to a nested function or class, do not count,
+    but the else clause of a nested loop does."""
+    if isinstance(node, exit_types):
+        return True
+
+    if isinstance(node, (ast.FunctionDef, ast.AsyncFunctionDef, ast.ClassDef, ast.Lambda)):
+        return False
+
+    if isinstance(node, (ast.For, ast.AsyncFor, ast.While)):
+        return any(_contains_loop_exit(child, exit_types) for child in node.orelse)
+
+    return any(_contains_loop_exit(child, exit_types) for child in ast.iter_child_nodes(node))
+
+
 def is_blocking(node: ast.AST, parent_type: ast.AST = None) -> bool:
     """Check if a node is impossible to get past.
 
@@ -1081,7 +1098,7 @@ def is_blocking(node: ast.AST, parent_type: ast.AST = None) -> bool:
                 return False
 
             for child in node.body:
-                if isinstance(child, ast.Break):
+                if _contains_loop_exit(child, (ast.Break,)):
                     return False
                 if is_blocking(child, type(node)):
                     return True
@@ -1098,18 +1115,15 @@ def is_blocking(node: ast.AST, parent_type: ast.AST = None) -> bool:
             return False  # e.g. "for x in 5:" raises at runtime, nothing is known about the loop
 
     if isinstance(node, (ast.For, ast.While)):
+        # `continue` in a loop over a collection eventually ends the loop, in `while True` it does not
+        exit_types = (ast.Break,) if isinstance(node, ast.While) else (ast.Break, ast.Continue)
         for child in node.body:
+            if _contains_loop_exit(child, exit_types):
+                return False
             if is_blocking(child, type(node)):
                 return True
             if is_blocking(child, parent_type):
                 return False
-            if isinstance(child, ast.If) and any(walk(child, (ast.Break, ast.Continue))):
-                try:
-                    test = literal_value(child.test)
-                except ValueError:
-                    return False
-                if test:
-                    return False
 
         if isinstance(node, ast.For):
             return False
